@@ -277,6 +277,33 @@ def step (line : String) : String :=
     let ig' := Schema.addUnique (Schema.addRequired ig)
     ",".intercalate (ig'.block.map (·.1)) ++ " | " ++ ",".intercalate ig'.cols ++ " | " ++
       ";".intercalate (ig'.unique.map (",".intercalate ·)) ++ " | " ++ toString (Schema.colRefsOK ig')
+  | ["loadtasks", fi, di, fs, ds] =>
+    let parseRef (r : String) : Option Manager.SrcRef :=
+      match r.splitOn ":" with
+      | [sn, a, b] =>
+        match a.toNat?, b.toNat? with
+        | some a, some b => some { name := sn, start := a, stop := b }
+        | _, _ => none
+      | _ => none
+    let parseIg (e : String) : Option Manager.IgCfg :=
+      match e.splitOn "/" with
+      | [n, en, refs] =>
+        let rs := (splitList refs "+").filterMap parseRef
+        some { name := n, enabled := en == "1", sources := rs }
+      | _ => none
+    let parseSrc (e : String) : Option Manager.SrcCfg :=
+      match e.splitOn "/" with
+      | [n, c, b, cc, p] =>
+        match c.toNat?, b.toNat?, cc.toNat?, p.toNat? with
+        | some c, some b, some cc, some p => some { name := n, chainId := c, batch := b, conc := cc, poll := p }
+        | _, _, _, _ => none
+      | _ => none
+    let igs (x : String) : List Manager.IgCfg := (splitList x ";").filterMap parseIg
+    let srcs (x : String) : List Manager.SrcCfg := (splitList x ";").filterMap parseSrc
+    match Manager.loadTasks (igs fi) (igs di) (srcs fs) (srcs ds) with
+    | none => "err"
+    | some ts => "ok " ++ ",".intercalate (sortStrings (ts.map fun t =>
+        s!"{t.src}/{t.ig}/{t.start}/{t.stop}/{t.batch}/{t.conc}/{t.poll}/{t.chainId}"))
   | ["planflags", fields] =>
     let fs := if fields == "-" then [] else fields.splitOn ","
     let flags := Plan.plan fs
